@@ -198,32 +198,48 @@ def run_chunk(args):
     return coq_chunk(f"C20_Nets{TAG}_{ci}", results, impl_s)
 
 
-def coq_chunk(mod, results, impl_s=0.0):
+MAX_GEN = 5_000_000   # characters per generated file (coqc memory/time grow with the element and case lists)
+
+
+def coq_chunk(mod, results, impl_s=0.0, part=0):
     text = c20_gen.HEADER
+    rest = []
     for k, res in enumerate(results):
         if "parsed" not in res:
             continue
-        S = f"_{k}"
+        if len(text) > MAX_GEN and "suffix" not in res:
+            rest.append(res)
+            continue
+        S = f"_{part}_{k}"
         t, it, man_base = c20_gen.map_file(res["job"]["name"], res["parsed"], res["cached"], S)
         tol = res["tolerance"]
         cases, meta = point_cases(res, it)
-        pts = ";\n  ".join(f"({t_}%N, {c20_gen._l(it, ex)}, {c20_gen._l(it, wi)}, {c20_gen._o(it, arg)}, {c20_gen._o(it, exp)})"
-                           for (t_, ex, wi, arg, exp) in cases)
+        pts = ";\n  ".join(
+            f"({c20_gen._l(it, ex)}, {c20_gen._l(it, wi)}, [" +
+            ";".join(f"({t_}%N,{c20_gen._o(it, arg)},{c20_gen._o(it, exp)})" for (t_, arg, exp, _k) in looks) + "])"
+            for (ex, wi, looks) in cases)
         t += f"""Definition pts{S} : list pt_case := [{pts}].
 Definition ptbad{S} := Eval vm_compute in pts_bad parsed{S} {'true' if tol > 0 else 'false'} pts{S}.
 Print ptbad{S}.
 """
         text += t
-        res.update(names={str(a): b for a, b in it.names.items()}, man_base=man_base, pt_meta=meta, n_cases=len(cases), suffix=S)
+        res.update(names={str(a): b for a, b in it.names.items()}, man_base=man_base, pt_meta=meta, n_cases=sum(len(l) for _, _, l in cases), pt_looks=[[k_ for (_, _, _, k_) in l] for _, _, l in cases], suffix=S)
+    all_results = results
+    if rest:
+        coq_chunk(mod, rest, impl_s, part + 1)
+        results = [r for r in results if not any(r is x for x in rest)]
+    mod = f"{mod}_p{part}"
+    live = [r for r in results if "parsed" in r]
+    if not live:
+        return all_results
     t1 = time.time()
     ok, out = common.run_coq_cases(mod, text, timeout=2400)
     coq_s = round(time.time() - t1, 2)
-    live = [r for r in results if "parsed" in r]
     if not ok and len(live) > 1:
         # localise: re-run every network of the chunk on its own
         for k, res in enumerate(live):
             coq_chunk(f"{mod}_only{k}", [res])
-        return results
+        return all_results
     pr = c20_gen.parse_printed(out) if ok else {}
     for res in live:
         S = res["suffix"]
@@ -232,8 +248,8 @@ Print ptbad{S}.
         res["printed"] = {k[:-len(S)]: v for k, v in pr.items() if k.endswith(S) and not k.startswith("ptbad")}
         res["ptbad"] = pr.get("ptbad" + S)
         res["gen"] = os.path.join(common.GEN, mod + ".v")
-        res["impl_s"], res["coq_s"] = impl_s / len(results), coq_s / len(live)
-    return results
+        res["impl_s"], res["coq_s"] = impl_s / max(1, len(all_results)), coq_s / len(live)
+    return all_results
 
 
 TAGS = [("element", 0, None), ("road", 1, None), ("lane", 2, None), ("intersection", 3, None), ("sidewalk", 4, None),
@@ -253,6 +269,7 @@ def ambiguous(rec, tol):
 
 
 def point_cases(res, it):
+    """One case per non-ambiguous point: (exact set, within set, [(tag, arg, impl result, lookup name)])."""
     tol = res["tolerance"]
     E = {e["uid"]: e for e in res["parsed"]["elems"]}
     cases, meta = [], []
@@ -261,8 +278,8 @@ def point_cases(res, it):
             continue
         ex = [u for u, (c, d) in rec["ans"].items() if c]
         wi = [u for u, (c, d) in rec["ans"].items() if d <= tol]
-        L = rec["look"]
-        L = dict(L, direl=rec["direl"])
+        L = dict(rec["look"], direl=rec["direl"])
+        looks = []
         for key, tag, argk in TAGS:
             if key not in L:
                 continue
@@ -275,8 +292,9 @@ def point_cases(res, it):
                 arg = E[L["lane"]]["group"] if L.get("lane") in E else None
             if argk and arg is None:
                 continue
-            cases.append((tag, ex, wi, arg, L[key]))
-            meta.append((i, key))
+            looks.append((tag, arg, L[key], key))
+        cases.append((ex, wi, looks))
+        meta.append(i)
     return cases, meta
 
 
@@ -342,6 +360,9 @@ def judge(c, res):
             d["target"] = t.get("uid")
             d["target_backlink_none"] = t.get(back) is None
             d["both_ordinary"] = e.get("road") in ordinary and t.get("road") in ordinary
+        if rule in (58, 59):
+            d["unreferenced_side_element"] = (e.get("road") is None and not any(
+                x.get("_sidewalk") == name or x.get("_shoulder") == name for x in P["elems"] if x["cls"] == "LaneGroup"))
         if rule == 17:
             off = []
             for lu in e.get("incomingLanes", []):
@@ -385,10 +406,10 @@ def judge(c, res):
         c.cov["traces_validated_against_impl"] += res["n_cases"]
         c.cov["disagreements_checked"] += res["n_cases"]
         for idx in res["ptbad"]:
-            i, key = res["pt_meta"][idx]
-            rec = res["points"][i]
-            c.violation("lookup", f"{key} lookup differs from the two-pass priority-ordered model",
-                        dict(ident, point=rec["p"], lookup=key, impl=rec["look"].get(key, rec.get("direl")), answers=rec["ans"], tolerance=tol, gen=res["gen"], case_index=idx))
+            rec = res["points"][res["pt_meta"][idx]]
+            c.violation("lookup", "a lookup differs from the two-pass priority-ordered model (elementAt/roadAt/laneAt/... at this point)",
+                        dict(ident, point=rec["p"], lookups_compared=res["pt_looks"][idx], impl=dict(rec["look"], direl=rec.get("direl")),
+                             answers=rec["ans"], tolerance=tol, gen=res["gen"], case_index=idx))
     judge_points(c, res, ident, E, tol)
     # cached network answers the same lookups
     for a, b in zip(res["points"], res["points_cached"]):
@@ -398,6 +419,9 @@ def judge(c, res):
                         dict(ident, point=a["p"], parsed=a["look"], cached=b["look"], dirs_parsed=a["dirs"], dirs_cached=b["dirs"]))
     # ---- cache protocol probes vs model
     return cache_cases(c, res, ident)
+
+
+LISTED = {}
 
 
 def judge_points(c, res, ident, E, tol):
@@ -421,9 +445,12 @@ def judge_points(c, res, ident, E, tol):
             if a is None or not (a[0] or a[1] <= tol * 1.0001 + 1e-9):
                 bad("containment", f"{key} reports an element that does not contain the point within the tolerance", lookup=key, reported=u)
         # (a') exact containers have priority over tolerant ones; None only when nothing is in reach
-        for key, cls in (("road", "Road"), ("lane", "Lane"), ("intersection", "Intersection"), ("sidewalk", "Sidewalk"), ("shoulder", "Shoulder")):
-            exact = [u for u, a in ans.items() if a[0] and E[u]["cls"] == cls]
-            near = [u for u, a in ans.items() if a[1] <= tol * 0.99 and E[u]["cls"] == cls]
+        for key, cls, lst in (("road", "Road", "allRoads"), ("lane", "Lane", "lanes"), ("intersection", "Intersection", "intersections"),
+                              ("sidewalk", "Sidewalk", "sidewalks"), ("shoulder", "Shoulder", "shoulders")):
+            # (lookups range over the Network's tuples; an element missing from its tuple is reported by hierarchy rules 57-61)
+            listed = LISTED.setdefault((id(res), lst), set(res["parsed"]["net"][lst]))
+            exact = [u for u, a in ans.items() if a[0] and E[u]["cls"] == cls and u in listed]
+            near = [u for u, a in ans.items() if a[1] <= tol * 0.99 and E[u]["cls"] == cls and u in listed]
             got = L.get(key)
             if exact and got not in exact:
                 bad("containment", f"{key}At misses an element that actually contains the point", lookup=key, exact=exact, reported=got)
@@ -502,7 +529,8 @@ def cache_cases(c, res, ident):
             c.violation("cache-error", "Network.fromFile raised instead of falling back to the parser", dict(ident, variant=var, outcome=pr["outcome"]))
             continue
         # property oracle: unchanged -> used; anything changed -> ignored
-        should = (k == "same")
+        noop = k == "truncate" and var["len"] >= pr["orig_len"]   # cache file shorter than the cut: nothing changed
+        should = (k == "same") or noop
         if k == "version" and pr["version"] == cur:
             should = True
         if used != should:
@@ -513,7 +541,7 @@ def cache_cases(c, res, ident):
         d = bytes.fromhex(pr["map_digest"])
         o = hashlib.blake2b(frame_bytes(pr["opts"]), digest_size=8).digest()
         hdr = bytes.fromhex(pr["hdr_hex"])
-        payload_ok = not (k == "truncate")
+        payload_ok = not (k == "truncate") or noop
         out.append((f"({use}, {cur}%N, {coq_bytes(d)}, {coq_bytes(o)}, Some {coq_bytes(hdr)}, {'true' if payload_ok else 'false'}, {'true' if used else 'false'})",
                     dict(ident, variant=var, outcome=pr["outcome"])))
     # options digest vs model framing
@@ -544,7 +572,7 @@ def main():
     c.cov["maps"] = len(maps)
     c.cov["maps_skipped_empty"] = [os.path.relpath(p, common.REPO) for p in skipped]
     jobs = []
-    npts = 160 if quick else 2000
+    npts = 160 if quick else 800
     for p in maps:
         size = os.path.getsize(p)
         base = re.sub(r"\W", "_", os.path.relpath(p, os.path.join(common.REPO, "assets/maps"))[:-5])
@@ -655,7 +683,7 @@ def hash_cases(c, rng, quick):
         c.cov["disagreements_checked"] += 1
         if hashlib.blake2b(fb, digest_size=8).hexdigest() != got["digest"]:
             c.violation("options-digest", "deterministicHash differs from blake2b-8 of the model's framing", dict(options=m, frame=fb.hex(), impl=got["digest"]))
-        pairs = json.dumps(got["strs"], sort_keys=True)
+        pairs = json.dumps(sorted(got["strs"], key=lambda kv: str(kv[0])))
         if got["digest"] in seen and seen[got["digest"]] != pairs:
             c.violation("options-collision", "two option maps with different key/value strings have the same digest", dict(a=seen[got["digest"]], b=pairs))
         seen[got["digest"]] = pairs
